@@ -1,0 +1,157 @@
+//! Verification facade (only compiled with `--cfg rzmq_verif`).
+//!
+//! Thin public wrappers around crate-private items so that an external harness can drive the
+//! real code. Nothing in here changes behaviour; with the cfg off this module does not exist.
+
+use crate::error::ZmqError;
+use crate::message::{FrameBatch, Msg};
+use crate::protocol::zmtp::engine::ZmtpEngine;
+use crate::security::framer::encoder::ZmtpFrameEncoder;
+use crate::security::framer::{ISecureFramer, NullFramer};
+use crate::socket::options::ZmtpEngineConfig;
+use bytes::{Bytes, BytesMut};
+use std::sync::Arc;
+use std::time::Duration;
+
+// ---------------------------------------------------------------------------------------------
+// Wire level
+// ---------------------------------------------------------------------------------------------
+
+/// Wrapper over the write-side frame encoder.
+pub struct VFrameEncoder(ZmtpFrameEncoder);
+
+impl VFrameEncoder {
+  pub fn new(header_cap: usize, coalesce_cap: usize) -> Self {
+    Self(ZmtpFrameEncoder::new(header_cap, coalesce_cap))
+  }
+  pub fn frame_contiguous(&mut self, batch: &[FrameBatch]) -> Result<Bytes, ZmqError> {
+    self.0.frame_contiguous(batch)
+  }
+  pub fn frame_vectored(&mut self, batch: &[FrameBatch]) -> Result<Vec<Bytes>, ZmqError> {
+    self.0.frame_vectored(batch)
+  }
+}
+
+/// Wrapper over the NULL (pass-through) framer used on unencrypted connections.
+pub struct VNullFramer(NullFramer);
+
+impl VNullFramer {
+  pub fn new(max_msg_size: i64, sndbatch_count: usize, sndbatch_bytes_physical: usize) -> Self {
+    Self(NullFramer::new(max_msg_size, sndbatch_count, sndbatch_bytes_physical))
+  }
+  pub fn try_read_msg(&mut self, buf: &mut BytesMut) -> Result<Option<Msg>, ZmqError> {
+    self.0.try_read_msg(buf)
+  }
+  pub fn write_msg_multipart(&mut self, msgs: FrameBatch) -> Result<Bytes, ZmqError> {
+    self.0.write_msg_multipart(msgs)
+  }
+  pub fn write_msg_batch(&mut self, batch: &[FrameBatch]) -> Result<Bytes, ZmqError> {
+    self.0.write_msg_batch(batch)
+  }
+  pub fn write_msg_split(&mut self, msg: Msg) -> Result<(Bytes, Option<Bytes>), ZmqError> {
+    self.0.write_msg_split(msg)
+  }
+  pub fn frame_vectored(&mut self, batch: &[FrameBatch]) -> Result<Vec<Bytes>, ZmqError> {
+    self.0.frame_vectored(batch)
+  }
+  pub fn try_read_msgs_from_bytes(
+    &mut self,
+    data: Bytes,
+    accumulator: &mut BytesMut,
+  ) -> Result<Vec<Msg>, ZmqError> {
+    self.0.try_read_msgs_from_bytes(data, accumulator)
+  }
+}
+
+// ---------------------------------------------------------------------------------------------
+// Engine level
+// ---------------------------------------------------------------------------------------------
+
+/// Plain-data mirror of the crate-private `ZmtpEngineConfig` fields a harness needs to set.
+#[derive(Debug, Clone)]
+pub struct VEngineCfg {
+  pub routing_id: Option<Vec<u8>>,
+  pub socket_type_name: String,
+  pub security_enabled: bool,
+  pub allow_zmtp2: bool,
+  pub heartbeat_ivl: Option<Duration>,
+  pub heartbeat_timeout: Option<Duration>,
+  pub use_cork: bool,
+  pub use_send_zerocopy: bool,
+  pub use_plain: bool,
+  pub plain_username: Option<String>,
+  pub plain_password: Option<String>,
+  pub use_curve: bool,
+  pub curve_local_secret_key: Option<[u8; 32]>,
+  pub curve_remote_public_key: Option<[u8; 32]>,
+  pub use_noise_xx: bool,
+  pub noise_local_sk: Option<[u8; 32]>,
+  pub noise_remote_pk: Option<[u8; 32]>,
+  pub max_msg_size: i64,
+}
+
+impl Default for VEngineCfg {
+  fn default() -> Self {
+    let d = ZmtpEngineConfig::default();
+    Self {
+      routing_id: None,
+      socket_type_name: d.socket_type_name,
+      security_enabled: d.security_enabled,
+      allow_zmtp2: d.allow_zmtp2,
+      heartbeat_ivl: d.heartbeat_ivl,
+      heartbeat_timeout: d.heartbeat_timeout,
+      use_cork: d.use_cork,
+      use_send_zerocopy: d.use_send_zerocopy,
+      use_plain: false,
+      plain_username: None,
+      plain_password: None,
+      use_curve: false,
+      curve_local_secret_key: None,
+      curve_remote_public_key: None,
+      use_noise_xx: false,
+      noise_local_sk: None,
+      noise_remote_pk: None,
+      max_msg_size: d.max_msg_size,
+    }
+  }
+}
+
+fn to_engine_config(c: &VEngineCfg) -> ZmtpEngineConfig {
+  #[allow(unused_mut)]
+  let mut cfg = ZmtpEngineConfig {
+    routing_id: c.routing_id.clone().map(crate::Blob::from),
+    socket_type_name: c.socket_type_name.clone(),
+    security_enabled: c.security_enabled,
+    allow_zmtp2: c.allow_zmtp2,
+    heartbeat_ivl: c.heartbeat_ivl,
+    heartbeat_timeout: c.heartbeat_timeout,
+    use_cork: c.use_cork,
+    use_send_zerocopy: c.use_send_zerocopy,
+    max_msg_size: c.max_msg_size,
+    ..Default::default()
+  };
+  #[cfg(feature = "plain")]
+  {
+    cfg.use_plain = c.use_plain;
+    cfg.plain_username_for_engine = c.plain_username.clone();
+    cfg.plain_password_for_engine = c.plain_password.clone();
+  }
+  #[cfg(feature = "curve")]
+  {
+    cfg.use_curve = c.use_curve;
+    cfg.curve_local_secret_key = c.curve_local_secret_key;
+    cfg.curve_remote_public_key = c.curve_remote_public_key;
+  }
+  #[cfg(feature = "noise_xx")]
+  {
+    cfg.use_noise_xx = c.use_noise_xx;
+    cfg.noise_xx_local_sk_bytes_for_engine = c.noise_local_sk;
+    cfg.noise_xx_remote_pk_bytes_for_engine = c.noise_remote_pk;
+  }
+  cfg
+}
+
+/// Builds a real `ZmtpEngine` from the plain-data configuration.
+pub fn new_engine(is_server: bool, cfg: &VEngineCfg) -> ZmtpEngine {
+  ZmtpEngine::new(is_server, Arc::new(to_engine_config(cfg)))
+}
